@@ -55,3 +55,24 @@ package enc
 //@     loop 0: invariant i < len(s) ==> encAt(s, i, orig[j], v(orig[j]))
 //@     loop 0: invariant forall(k, 0, j, buf[k] == orig[k])
 //@     loop 0: invariant forall(k, j, len(s), buf[k] == s[k])
+
+//@ # ---- identifiers --------------------------------------------------------
+//@ # intail: LLVM's identifier characters [-a-zA-Z$._0-9]; inquoted: bytes printed verbatim inside "..."
+//@ spec intail(b byte) bool = ('a' <= b && b <= 'z') || ('A' <= b && b <= 'Z') || ('0' <= b && b <= '9') || b == '$' || b == '-' || b == '.' || b == '_'
+//@ spec inquoted(b byte) bool = ' ' <= b && b <= '~' && b != '"' && b != '\\'
+//@ spec quotedPred() bytepred
+//@ spec holds(v bytepred, b byte) bool = v(b)
+//@ axiom quotedPredDef: forall(b byte, holds(quotedPred(), b) == inquoted(b))
+//@ # isQuotedEsc(r, s): r is s escaped for a quoted identifier, with the surrounding quotes
+//@ spec isQuotedEsc(r string, s string) bool = len(r) >= 2 && r[0] == '"' && r[len(r)-1] == '"' && isEsc(r[1:len(r)-1], s, quotedPred())
+
+//@ func EscapeIdent
+//@   props C11
+//@   overflow
+//@   ensures forall(k, 0, len(s), intail(s[k])) ==> result == s
+//@   ensures exists(k, 0, len(s), !intail(s[k])) ==> isQuotedEsc(result, s)
+//@   loop 0: invariant 0 <= i && i <= len(s) && extra == cnt(s, quotedPred(), i)
+//@   loop 0: invariant !replace ==> forall(k, 0, i, intail(s[k]))
+//@   loop 0: invariant replace ==> exists(k, 0, i, !intail(s[k]))
+//@   loop 1: invariant 0 <= i && i <= len(s) && j == i + cnt(s, quotedPred(), i) && len(buf) == len(s) + cnt(s, quotedPred(), len(s))
+//@   loop 1: invariant forall(k, 0, i, encAt(string(buf), k + cnt(s, quotedPred(), k), s[k], inquoted(s[k])))
